@@ -191,7 +191,7 @@ type KV struct {
 var wfHosts = []string{"example.com", "www.example.org", "a.b", "cdn.site.net", "media.example.com", "x1.y2.z3"}
 var wfSegs = []string{"a", "b", "c", "dir", "img", "x.png", "index.html", "v1", "style.css", "a-b", "a_b", "~u", "file.tar.gz", "p2", "A"}
 var wfKeys = []string{"a", "b", "c", "q", "id", "page", "x.y", "k-1", "utm_source", "k%3D1", "a%3Bb", "p%26q"}
-var wfVals = []string{"1", "2", "", "x", "hello", "x+y", "x%20y", "%C3%A9", "a.b", "A_B-c~d", "%26amp", "100%25", "a%3Bb", "x%3Dy", "%3D", "k%3Dv%26w%3Bz", "%3b"}
+var wfVals = []string{"1", "2", "", "x", "hello", "x+y", "x%20y", "%C3%A9", "a.b", "A_B-c~d", "%26amp", "100%25", "a%3Bb", "x%3Dy", "%3D", "k%3Dv%26w%3Bz", "%3b", "http://other.example/x", "https://other.example/a/b.html"}
 
 // WFAbsGen draws a well-formed absolute URL.
 func WFAbsGen(t *rapid.T, label string) WFAbs {
@@ -277,7 +277,7 @@ func WFRefGen(t *rapid.T, label string) WFRef {
 	// permitted outcome (error), not a wrong resolution.
 	kinds := []string{"abs", "scheme-rel", "path-abs", "path-abs", "path-rel", "path-rel", "path-rel", "query-only", "frag-only"}
 	r := WFRef{Kind: pick(t, label+".kind", kinds)}
-	r.Frag = pick(t, label+".frag", []string{"", "", "#top", "#a/b?c"})
+	r.Frag = pick(t, label+".frag", []string{"", "", "#top", "#a/b?c", "#see-http://x.example/y"})
 	switch r.Kind {
 	case "abs", "scheme-rel":
 		a := WFAbsGen(t, label+".abs")
